@@ -77,6 +77,39 @@ type expEv struct {
 	ts   int64
 	msg  []byte
 	flds []byte // binary
+	opt  int    // > 0: event of a REJECTED write (segment id): a prefix of such a write may be stored, nothing of it has to be
+}
+
+// resolve decides for the events of rejected writes whether they are there: a rejected write may have stored a
+// prefix of its events (in order, each at most once) before it failed
+func resolve(exp []expEv, got []RV) []expEv {
+	var res []expEv
+	gi := 0
+	dropped := 0
+	for _, e := range exp {
+		if e.opt == 0 {
+			res = append(res, e)
+			gi++
+			continue
+		}
+		if e.opt != dropped && gi < len(got) && got[gi].Ts == e.ts && string(got[gi].Msg) == string(e.msg) {
+			res = append(res, e)
+			gi++
+			continue
+		}
+		dropped = e.opt
+	}
+	return res
+}
+
+func mandatory(exp []expEv) int {
+	n := 0
+	for _, e := range exp {
+		if e.opt == 0 {
+			n++
+		}
+	}
+	return n
 }
 
 // decodable prefix of a raw body: (tags, write-level fields text, declared count, events)
@@ -161,22 +194,39 @@ func runE2E(rp E2EReplay) (*e2eOut, error) {
 			for _, e := range rq.Aes {
 				addFparse(ftab, e.Flds)
 			}
-			should := kok && ferr == nil
-			if ack != should {
-				fail("ack-mismatch", fmt.Sprintf("request %d: acknowledged=%v, expected %v (tags ok=%v, fields err=%v, server err=%v)", i, ack, should, kok, ferr, res.Err))
+			// the property: a write the server cannot serve back must be rejected, not acknowledged
+			var bins [][]byte
+			firstBig := -1
+			for k, e := range rq.Aes {
+				ef := field.Parse(e.Flds)
+				if len(wf) > 0 && len(ef) > 0 {
+					bothLevels = true
+				}
+				bin := append(append([]byte{}, wf...), []byte(ef)...)
+				bins = append(bins, bin)
+				if firstBig < 0 && int64(recordSize(e.Msg, bin)) > rp.MaxRec {
+					firstBig = k
+				}
 			}
-			if ack && kok {
+			should := kok && ferr == nil && firstBig < 0
+			switch {
+			case ack && kok && ferr == nil && firstBig >= 0:
+				oversize[key] = true // reported when the read fails (class oversize-record-acknowledged-unreadable)
+			case ack != should:
+				fail("ack-mismatch", fmt.Sprintf("request %d: acknowledged=%v, expected %v (tags ok=%v, fields err=%v, oversize record=%v, server err=%v)", i, ack, should, kok, ferr, firstBig >= 0, res.Err))
+			}
+			if kok && ferr == nil {
 				addKey(key)
-				for _, e := range rq.Aes {
-					ef := field.Parse(e.Flds)
-					if len(wf) > 0 && len(ef) > 0 {
-						bothLevels = true
+				seg := 0
+				n := len(rq.Aes)
+				if !ack {
+					seg, n = i+1, firstBig
+					if n < 0 {
+						n = 0
 					}
-					bin := append(append([]byte{}, wf...), []byte(ef)...)
-					expected[key] = append(expected[key], expEv{e.Ts, e.Msg, bin})
-					if int64(recordSize(e.Msg, bin)) > rp.MaxRec {
-						oversize[key] = true
-					}
+				}
+				for k := 0; k < n; k++ {
+					expected[key] = append(expected[key], expEv{rq.Aes[k].Ts, rq.Aes[k].Msg, bins[k], seg})
 				}
 			}
 		case "dir":
@@ -190,16 +240,32 @@ func runE2E(rp E2EReplay) (*e2eOut, error) {
 			coqReqs = append(coqReqs, GApp("DirW", GStr(rq.Tags), gLEs(rq.Les)))
 			key, kok := normTags(rq.Tags)
 			ntab.add(rq.Tags, []byte(key), kok)
-			if ack != kok {
-				fail("ack-mismatch", fmt.Sprintf("request %d (direct): acknowledged=%v, tags ok=%v, err=%v", i, ack, kok, err))
+			firstBig := -1
+			for k, e := range rq.Les {
+				if firstBig < 0 && int64(recordSize(e.Msg, e.Flds)) > rp.MaxRec {
+					firstBig = k
+				}
 			}
-			if ack && kok {
+			should := kok && firstBig < 0
+			switch {
+			case ack && kok && firstBig >= 0:
+				oversize[key] = true
+			case ack != should:
+				fail("ack-mismatch", fmt.Sprintf("request %d (direct): acknowledged=%v, expected %v (tags ok=%v, oversize record=%v, err=%v)", i, ack, should, kok, firstBig >= 0, err))
+			}
+			if kok {
 				addKey(key)
-				for _, e := range rq.Les {
-					expected[key] = append(expected[key], expEv{e.Ts, e.Msg, e.Flds})
-					if int64(recordSize(e.Msg, e.Flds)) > rp.MaxRec {
-						oversize[key] = true
+				seg := 0
+				n := len(rq.Les)
+				if !ack {
+					seg, n = i+1, firstBig
+					if n < 0 {
+						n = 0
 					}
+				}
+				for k := 0; k < n; k++ {
+					e := rq.Les[k]
+					expected[key] = append(expected[key], expEv{e.Ts, e.Msg, e.Flds, seg})
 				}
 			}
 		case "raw":
@@ -220,12 +286,34 @@ func runE2E(rp E2EReplay) (*e2eOut, error) {
 				for _, e := range evs {
 					addFparse(ftab, e.Flds)
 				}
-				if ack && kok {
+				_, ferr := field.NewFieldsFromKVString(f)
+				if kok && ferr == nil {
 					addKey(key)
-					for _, e := range evs {
+					seg, n := 0, len(evs)
+					var bins [][]byte
+					firstBig := -1
+					for k, e := range evs {
 						bin := append(append([]byte{}, wf...), []byte(field.Parse(e.Flds))...)
-						expected[key] = append(expected[key], expEv{e.Ts, e.Msg, bin})
+						bins = append(bins, bin)
+						if firstBig < 0 && int64(recordSize(e.Msg, bin)) > rp.MaxRec {
+							firstBig = k
+						}
 					}
+					if ack && firstBig >= 0 {
+						oversize[key] = true
+					}
+					if !ack {
+						// rejected: a prefix (up to the record that cannot be served back) may have been stored
+						seg, n = i+1, firstBig
+						if n < 0 {
+							n = 0
+						}
+					}
+					for k := 0; k < n; k++ {
+						expected[key] = append(expected[key], expEv{evs[k].Ts, evs[k].Msg, bins[k], seg})
+					}
+				}
+				if ack && kok {
 					if declared > len(evs) {
 						truncAck = true
 						fail("truncated-packet-acknowledged", fmt.Sprintf("request %d: the packet declares %d events, %d decode; the write was acknowledged", i, declared, len(evs)))
@@ -245,25 +333,37 @@ func runE2E(rp E2EReplay) (*e2eOut, error) {
 	var reads, chunks []string
 	multiChunk := false
 	for _, key := range keys {
-		want := len(expected[key])
+		want := mandatory(expected[key])
 		var info struct {
 			recs   uint64
 			chunks []uint32
+			jid    string
 		}
-		okFlush := WaitFor(flushDeadline, func() bool {
+		look := func() bool {
 			pi, err := srv.Partitions.GetParitionInfo(key)
 			if err != nil {
 				return false
 			}
 			info.recs = pi.Records
+			info.jid = pi.JournalId
 			info.chunks = info.chunks[:0]
 			for _, c := range pi.Chunks {
 				info.chunks = append(info.chunks, c.Records)
 			}
 			return pi.Records >= uint64(want)
-		})
+		}
+		okFlush := WaitFor(flushDeadline, look)
 		if !okFlush {
 			fail("acknowledged-not-readable", fmt.Sprintf("partition %s: %d records acknowledged, %d confirmed after %s", key, want, info.recs, flushDeadline))
+		}
+		// records of REJECTED writes may still sit in the write buffer (nobody has to wait for them): flush them
+		// explicitly so that the read below and the chunk counts see a settled partition
+		if info.jid != "" {
+			if _, j, err := srv.Partitions.GetJournal(ctx, info.jid); err == nil {
+				j.Sync()
+				srv.Partitions.Release(info.jid)
+				look()
+			}
 		}
 		var cs []string
 		nz := 0
@@ -321,7 +421,7 @@ func runE2E(rp E2EReplay) (*e2eOut, error) {
 			}
 		}
 		// oracle: read-back == acknowledged events (order, multiplicity, content)
-		exp := expected[key]
+		exp := resolve(expected[key], got)
 		for _, e := range exp {
 			kvtab.add(string(e.flds), []byte(field.Fields(string(e.flds)).AsKVString()), true)
 		}
@@ -502,5 +602,163 @@ func runConc(rp E2EReplay) (*e2eOut, error) {
 	} else {
 		out.tags = append(out.tags, "conc:serial")
 	}
+	return out, nil
+}
+
+// ---------------------------------------------------------------- write events (StartPos / EndPos)
+
+// runPos: direct writes on the storage-only server; every acknowledged non-empty write must emit one
+// WriteEvent whose StartPos/EndPos delimit exactly its records
+func runPos(rp E2EReplay) (*e2eOut, error) {
+	ms, err := startMini(rp.MaxChunk, rp.MaxRec)
+	if err != nil {
+		return nil, err
+	}
+	defer ms.Stop()
+	ctx := context.Background()
+	out := &e2eOut{}
+	fail := func(class, detail string) {
+		if out.viol == nil {
+			out.viol = &Violation{Class: class, Detail: detail}
+		}
+	}
+	ntab := newTab()
+	type wev struct {
+		key      string
+		n        int
+		before   int
+		have     bool
+		s, e     [2]uint64 // chunk id, idx
+		observed bool
+	}
+	var evs []wev
+	var acks, coqReqs []string
+	count := map[string]int{}
+	var keys []string
+	for i, rq := range rp.Reqs {
+		if rq.Kind != "dir" {
+			return nil, fmt.Errorf("pos case with a %s request", rq.Kind)
+		}
+		les := make([]model.LogEvent, len(rq.Les))
+		for k, e := range rq.Les {
+			les[k] = toModel(e)
+		}
+		err := ms.Partitions.Write(ctx, rq.Tags, &sliceIt{evs: les}, false)
+		ack := err == nil
+		acks = append(acks, GBool(ack))
+		coqReqs = append(coqReqs, GApp("DirW", GStr(rq.Tags), gLEs(rq.Les)))
+		key, kok := normTags(rq.Tags)
+		ntab.add(rq.Tags, []byte(key), kok)
+		if ack != kok {
+			fail("ack-mismatch", fmt.Sprintf("request %d (direct): acknowledged=%v, tags ok=%v, err=%v", i, ack, kok, err))
+		}
+		w := wev{key: key, n: len(rq.Les), before: count[key]}
+		expectEvent := ack && kok && len(rq.Les) > 0
+		// the event is sent before Write returns (buffered channel): when one is due it is there at once; when none
+		// is due a short look makes sure there is none
+		d := 30 * time.Millisecond
+		if expectEvent {
+			d = 10 * time.Second
+		}
+		c2, cancel := context.WithTimeout(ctx, d)
+		we, werr := ms.Partitions.GetWriteEvent(c2)
+		cancel()
+		if werr == nil {
+			w.have = true
+			w.s = [2]uint64{uint64(we.StartPos.CId), uint64(we.StartPos.Idx)}
+			w.e = [2]uint64{uint64(we.EndPos.CId), uint64(we.EndPos.Idx)}
+			if string(we.Tags.Line()) != key {
+				fail("write-event-tags", fmt.Sprintf("request %d: event tags %q, partition %q", i, we.Tags.Line(), key))
+			}
+		}
+		if expectEvent != w.have {
+			fail("write-event-presence", fmt.Sprintf("request %d: %d records acknowledged=%v, event emitted=%v", i, len(rq.Les), ack, w.have))
+		}
+		w.observed = true
+		evs = append(evs, w)
+		if ack && kok {
+			if _, ok := count[key]; !ok {
+				keys = append(keys, key)
+			}
+			count[key] += len(rq.Les)
+		}
+	}
+	// final chunk layout of every partition
+	sort.Strings(keys)
+	type ck struct {
+		id  uint64
+		cnt uint32
+	}
+	layout := map[string][]ck{}
+	var chunks []string
+	multi := false
+	for _, key := range keys {
+		pi, err := ms.Partitions.GetParitionInfo(key)
+		if err != nil {
+			return nil, fmt.Errorf("partition info %s: %v", key, err)
+		}
+		if _, j, err := ms.Partitions.GetJournal(ctx, pi.JournalId); err == nil {
+			j.Sync()
+			ms.Partitions.Release(pi.JournalId)
+		}
+		pi, err = ms.Partitions.GetParitionInfo(key)
+		if err != nil {
+			return nil, fmt.Errorf("partition info %s: %v", key, err)
+		}
+		var cs []string
+		for _, c := range pi.Chunks {
+			if c.Records > 0 {
+				layout[key] = append(layout[key], ck{uint64(c.Id), c.Records})
+				cs = append(cs, GN(uint64(c.Records)))
+			}
+		}
+		if len(cs) >= 2 {
+			multi = true
+		}
+		chunks = append(chunks, GPair(GStr(key), GList(cs)))
+		if int(pi.Records) != count[key] {
+			fail("acknowledged-not-readable", fmt.Sprintf("partition %s: %d records acknowledged, %d stored", key, count[key], pi.Records))
+		}
+	}
+	// rank (1-based, among the non-empty chunks) and offset of a position
+	rank := func(key string, cid uint64) (int, int, bool) {
+		off := 0
+		for i, c := range layout[key] {
+			if c.id == cid {
+				return i + 1, off, true
+			}
+			off += int(c.cnt)
+		}
+		return 0, 0, false
+	}
+	spans := false
+	var wes []string
+	for i, w := range evs {
+		if !w.have {
+			wes = append(wes, GSome(GNone))
+			continue
+		}
+		rs, offs, ok1 := rank(w.key, w.s[0])
+		re, offe, ok2 := rank(w.key, w.e[0])
+		if !ok1 || !ok2 {
+			fail("write-event-positions", fmt.Sprintf("request %d: event names a chunk the partition does not have", i))
+			wes = append(wes, GNone)
+			continue
+		}
+		if offs+int(w.s[1]) != w.before || offe+int(w.e[1]) != w.before+w.n {
+			fail("write-event-positions", fmt.Sprintf("request %d: the batch is records [%d,%d) of the partition, the event says [%d,%d)", i, w.before, w.before+w.n, offs+int(w.s[1]), offe+int(w.e[1])))
+		}
+		if rs != re {
+			spans = true
+		}
+		wes = append(wes, GSome(GSome(GPair(GPair(GN(uint64(rs)), GN(w.s[1])), GPair(GN(uint64(re)), GN(w.e[1]))))))
+	}
+	out.coq = GApp("KE2E", gCfg(rp.MaxChunk, rp.MaxRec), "[]", ntab.gallina(), "[]", GList(coqReqs),
+		GList(acks), GList(wes), "[]", GList(chunks))
+	out.nontriv = multi
+	if spans {
+		out.tags = append(out.tags, "pos:event-spans-chunks")
+	}
+	out.tags = append(out.tags, fmt.Sprintf("pos:maxchunk=%d", rp.MaxChunk))
 	return out, nil
 }
